@@ -434,7 +434,7 @@ func vexExtra(v *claircore.Vulnerability) string {
 
 func runVex(r *hx.Run, g *gen, cfg hx.Config) {
 	u := &vex.Updater{}
-	for it, n := 0, cfg.N(600, 5000); it < n && !r.Stop(); it++ {
+	for it, n := 0, cfg.N(1200, 10000); it < n && !r.Stop(); it++ {
 		var docs []vexDoc
 		for i, m := 0, 1+g.r.Intn(3); i < m; i++ {
 			docs = append(docs, g.vexDoc(it*4+i))
